@@ -42,7 +42,7 @@ def gen_cases(tier, seed):
                "metadata_only": rng.random() < 0.04, "maxpkt": 128}
         faults = rng.choice([None, None, 0.1, 0.25, 0.4])
         cancel = None if rng.random() < 0.75 else [rng.choice("SD"), rng.randrange(1, 12)]
-        cases.append({"t": "pair", "cfg": cfg, "faults": faults, "cancel": cancel, "seed": seed * 1_000_003 + i})
+        cases.append({"t": "pair", "cfg": cfg, "faults": faults, "cancel": cancel, "seed": seed * 1_000_003 + i, "pacing": rng.choice([None, None, {"src_calls": 3}, {"src_calls": 6}, {"dst_calls": 3}, {"src_calls": 2, "dst_calls": 2}, {"dst_idle": 2}, {"src_idle": 2, "dst_calls": 2}])})
     # two users of one process, each with an in-memory filestore of its own, whose (virtual) path names, sizes and checksum types are the
     # same while the contents differ: what one handler reads must come from its own user's filestore
     for j in range(150 if tier == "quick" else 3000):
@@ -70,7 +70,7 @@ def one_run(case, fs):
     actions = {}
     if case["cancel"]:
         actions[case["cancel"][1]] = [("cancel", case["cancel"][0])]
-    r = Runner(w, plan=plan, max_expiries=30, max_rounds=2500, actions=actions)
+    r = Runner(w, plan=plan, max_expiries=30, max_rounds=2500, actions=actions, pacing=case.get("pacing"))
     host_before = w.host_tree()
     if fs != "native":
         audit.arm([w.sandbox])
